@@ -41,7 +41,9 @@ pub const INFO: Info = Info {
            with random white space, comments, attribute order, ignored wrapper elements, userParams and irrelevant \
            cvParams, parsed with every combination of level filter and S/N level; directed pairs (rich element \
            followed by a bare one and vice versa, an element whose precursor is never pushed, two precursors in one \
-           spectrum) for every loop-carried local; arrays that declare no kind after one that does; exhaustive optional-field subsets \
+           spectrum) for every loop-carried local; isolation-window offsets that are exactly zero (0, 0.0, 0e0, -0, -0.0 ...: about a \
+           third of all offsets, and stream `iso-window` with every combination of absent / 0 / 0.0 / -0.0 / non-zero \
+           lower and upper offsets): the window must be Da(-lower, upper) bit for bit; arrays that declare no kind after one that does; exhaustive optional-field subsets \
            for two-spectrum documents (thorough); payload lengths 0..17 x dtype x compression; single-fault \
            documents (absent/unparsable value, missing accession/id/unit, bad base64, bad zlib) for every error \
            class; `chaos`: well-nested random trees with elements in wrong places; `tic-zero`: a total ion current of 0 (formerly read as a blank spectrum) on MS1/MS2/MS3 elements, as \
@@ -371,6 +373,9 @@ fn fmt_val(v: &Val, r: &mut Rng) -> Option<String> {
         Val::Absent => None,
         Val::Garbage => Some((*r.pick(&["abc", "", "1.2.3", "0x10", "--1", "1,5"])).to_string()),
         // `{:?}` always prints a fraction, an exponent, `inf` or `NaN`: parses back to the same f32, never as u8
+        // the two zeros in several spellings (none of which parses as an unsigned integer either)
+        Val::F(0) => Some((*r.pick(&["0.0", "0e0", "0.00", "+0.0", "0E-3"])).to_string()),
+        Val::F(0x8000_0000) => Some((*r.pick(&["-0.0", "-0", "-0e0", "-0.000"])).to_string()),
         Val::F(b) => Some(format!("{:?}", f32::from_bits(*b))),
         Val::N(n) => Some(n.to_string()),
     }
@@ -906,6 +911,17 @@ fn fval(r: &mut Rng) -> Val {
     }
 }
 
+/// an isolation-window offset: exactly zero (as `0`, `0.0`/`0e0`/…, `-0`/`-0.0`/…) about a third of the time -
+/// zero is a legitimate offset (one-sided window), not "absent"
+fn iso_val(r: &mut Rng) -> Val {
+    match r.below(9) {
+        0 => Val::N(0),
+        1 => Val::F(0),
+        2 => Val::F(0x8000_0000),
+        _ => fval(r),
+    }
+}
+
 fn other_cv(r: &mut Rng) -> P {
     let v = match r.below(3) {
         0 => Val::Absent,
@@ -1083,10 +1099,10 @@ fn gen_el(r: &mut Rng, n: usize, o: &Opts) -> El {
         if has(r, 60) {
             pe.iso.push(p(OTHER, fval(r)));
             if has(r, 90) {
-                pe.iso.push(p(ISOLO, fval(r)));
+                pe.iso.push(p(ISOLO, iso_val(r)));
             }
             if has(r, 90) {
-                pe.iso.push(p(ISOHI, fval(r)));
+                pe.iso.push(p(ISOHI, iso_val(r)));
             }
             if o.rich.is_none() {
                 r.shuffle(&mut pe.iso);
@@ -1125,7 +1141,7 @@ fn gen_el(r: &mut Rng, n: usize, o: &Opts) -> El {
         if has(r, 50) {
             pe.act.push(other_cv(r));
             if o.rich.is_none() && r.chance(1, 10) {
-                pe.act.push(p(ISOHI, fval(r)));
+                pe.act.push(p(ISOHI, iso_val(r)));
             }
         }
         e.precs.push(pe);
@@ -1715,6 +1731,54 @@ pub fn gen(rng: &mut Rng, tier: Tier, emit: &mut dyn FnMut(Case)) {
                 let els = vec![mk(b1, "a", rng), mk(b2, "b", rng)];
                 let evs = doc_events(&els, rng, 0);
                 emit(Case::new(request(style_for(rng, 0), None, Some(2), &evs)).tag("exhaustive-optional-fields"));
+            }
+        }
+    }
+
+    // --- B3: isolation-window offsets that are exactly zero: `Da(-lo, hi)` must come back with the encoded zeros
+    //          (lower 0 gives -0.0), never as "no window"; every combination of {absent, 0, 0.0, -0.0, non-zero}
+    {
+        let choices: [Option<Val>; 5] =
+            [None, Some(Val::N(0)), Some(Val::F(0)), Some(Val::F(0x8000_0000)), Some(Val::F(0x3fc0_0000))];
+        for (i, lo) in choices.iter().enumerate() {
+            for (j, hi) in choices.iter().enumerate() {
+                for variant in 0..(if quick { 2 } else { 8 }) {
+                    let mut e = El { id: format!("iso{i}{j}"), ..Default::default() };
+                    e.params.push(p(LEVEL, Val::N(2)));
+                    let mut pe = Prec::default();
+                    if let Some(v) = lo {
+                        pe.iso.push(p(ISOLO, *v));
+                    }
+                    if let Some(v) = hi {
+                        // the upper offset sometimes in the activation block, after the selected ion
+                        if variant % 2 == 1 {
+                            pe.act.push(p(ISOHI, *v));
+                        } else {
+                            pe.iso.push(p(ISOHI, *v));
+                        }
+                    }
+                    pe.ions.push(vec![p(SELMZ, fval(rng)), p(SELCHARGE, Val::N(2))]);
+                    e.precs.push(pe);
+                    // a second precursor with an ordinary window, and a following spectrum without one
+                    let mut pe2 = Prec::default();
+                    pe2.iso = vec![p(ISOLO, Val::F(0x3f80_0000)), p(ISOHI, Val::F(0x4000_0000))];
+                    pe2.ions.push(vec![p(SELMZ, fval(rng))]);
+                    if variant >= 1 {
+                        e.precs.push(pe2);
+                    }
+                    let mut bare = El { id: "next".into(), ..Default::default() };
+                    bare.params.push(p(LEVEL, Val::N(2)));
+                    let mut bp = Prec::default();
+                    bp.ions.push(vec![p(SELMZ, fval(rng))]);
+                    bare.precs.push(bp);
+                    let evs = doc_events(&[e, bare], rng, if variant % 2 == 0 { 0 } else { 15 });
+                    let zero = |v: &Option<Val>| matches!(v, Some(Val::N(0)) | Some(Val::F(0)) | Some(Val::F(0x8000_0000)));
+                    emit(Case::new(request(style_for(rng, 0), None, None, &evs))
+                        .tag("iso-window")
+                        .tag_if(zero(lo) && hi.is_some(), "iso-window:lower-zero")
+                        .tag_if(zero(hi) && lo.is_some(), "iso-window:upper-zero")
+                        .tag_if(zero(lo) && zero(hi), "iso-window:both-zero"));
+                }
             }
         }
     }
